@@ -768,14 +768,15 @@ def carry_chain(ctx: Ctx, rows: dict, cases: list) -> None:
                 if t.ctor in ("add", "sub") and len(t.args) >= 4 and t.args[3] not in (None, "", 0):
                     n += 1
                     w = t.args[0]
-                    for operand in t.args[1:3]:
+                    for pos, operand in enumerate(t.args[1:3]):
                         if isinstance(operand, Term) and operand.ctor == "add" and operand.args[0] == w and any(x.ctor == "flag" for x in ilfacts.walk(operand)):
-                            groups[(rows[c.opcode].cls, t.ctor)].append(c)
-    for (cls, op), cs in sorted(groups.items()):
+                            groups[(rows[c.opcode].cls, t.ctor, pos)].append(c)
+    for (cls, op, pos), cs in sorted(groups.items()):
         ops = sorted({c.opcode for c in cs})
         r = rows[ops[0]]
-        ctx.violation("C04.11/carry-chain", key_of(isa.INSTR_PY, cls, f"{op} of (operand + C) at the operand width"),
-                      f"{cls} (opcodes {[hex(o) for o in ops[:8]]}): the flag-setting {op} takes `operand + C` computed at the same width as its second input; "
+        which = "operand" if pos == 1 else "destination"
+        ctx.violation("C04.11/carry-chain", key_of(isa.INSTR_PY, cls, f"{op} of ({which} + C) at the operand width"),
+                      f"{cls} (opcodes {[hex(o) for o in ops[:8]]}): the flag-setting {op} takes `{which} + C` computed at the same width as its {'second' if pos == 1 else 'first'} input; "
                       f"with operand = all ones and C = 1 that sum wraps to 0 and the carry/borrow out is lost", f"{isa.OPTABLE}:{r.ln}", il=cs[0].il[:3])
     ctx.instance("C04.11/carry-chain", "flag-setting add/sub terms inspected for a same-width `x + C` operand", n, 150)
 
